@@ -262,6 +262,7 @@ type Adapter struct {
 	nMethod   int
 	nWrites   int
 	Fired     bool   // the plan's failure was delivered
+	FiredMethod string // the adapter method which was failed
 	CrashSnap *State // state right after the CrashAfter-th write
 	trace     bool
 	calls     []Call
@@ -382,6 +383,7 @@ func (a *Adapter) enter(method string, write bool, args string) error {
 		}
 		if hit && !a.Fired {
 			a.Fired = true
+			a.FiredMethod = method
 			err = a.plan.FailErr
 			if err == nil {
 				err = ErrInjected
